@@ -365,7 +365,7 @@ func GenC11(t *rapid.T) *C11Case {
 	nw := drawInt(t, 1, 5, "nwrites")
 	cfg := tfTreeCfg()
 	for i := 0; i < nw; i++ {
-		unset := drawInt(t, 0, 3, "unset") == 0
+		unset := oneIn(t, 4, "unset")
 		segs := genWritePath(t, model, unset)
 		w := TFWrite{Path: joinTF(segs), Unset: unset}
 		if unset {
